@@ -20,6 +20,9 @@ func refRun(p gen.Program) (in *refint.Interp, val *refint.V, err *refint.Err, a
 // refRunOpt: std also installs the reference's standard-library packages.
 func refRunOpt(p gen.Program, std bool) (in *refint.Interp, val *refint.V, err *refint.Err, abort string) {
 	in = refint.New()
+	// the documented sharing model: cdr/rest/slice are views, stable-sort sorts
+	// a mutable list in place and a literal into a fresh list (NOTES.md, "arglist")
+	in.MutLists = true
 	if std {
 		in.InstallStdlib()
 	}
@@ -190,5 +193,8 @@ func TestCheck(t *testing.T) {
 		// (ext_test.go, gen/ext.go, refint/ext.go)
 		vcommon.S("ext", 40000, 600000, gen.GenProgramExt(5, 70, 6, 22, 0), checkExt),
 		vcommon.S("stdlib", 8000, 160000, gen.GenProgramExt(5, 70, 6, 6, 30), checkExtStd),
+		// argument lists are built afresh for every call; in-place mutation on
+		// either side of a call (arglist_test.go)
+		vcommon.S("arglist", 16000, 320000, genArgList(), checkArgList),
 	)
 }
